@@ -2,7 +2,16 @@
 import itertools
 
 WARM_TWINS = {"quick": 0.004, "thorough": 0.02}      # engine: call-history twins (harness/warm.py)
-DECOY_TWINS = {"quick": 0.004, "thorough": 0.02}     # engine: decoy twins (harness/decoy.py)
+DECOY_TWINS = {"quick": 0.03, "thorough": 0.1}     # engine: decoy twins (harness/decoy.py) ...
+
+
+def DECOY_PICK(line):
+    """... on the lines whose collection sits on a parent WITH sequence (whole chromosome `W`, chunk `K`): only there can
+    an answer carry bases that belong to another object"""
+    t = line.split(" ", 2)
+    return len(t) > 1 and t[1] in ("W", "K")
+
+
 ID = "C09"
 LEAN_MODULE = "BioCantor.Props.C09"
 DESIGN_REF = "4/C09"
